@@ -3596,6 +3596,113 @@ def spec_colspan_bounded(ctx, make_exe):
         post(exe, s2, ret.fields[1].e == acc.e + one.e, fold.name, "the column count of a row is the sum over its cells")
     return {"functions": [td.name, per_cell.name, fold.name], "paths": total}
 
+# ----------------------------------------------------------------------------
+# SPEC: inline text reaches the wrapping block with the annotations current at that moment (SubRenderer::add_inline_text)
+# ----------------------------------------------------------------------------
+
+def spec_inline_text_tags(ctx, make_exe):
+    import summaries
+    orig = summaries.summarize
+    cands = [g for g in ctx.find(r"::add_inline_text$", debug=["self", "text", "filtered_text", "ws_mode"]) if "SubRenderer" in g.args[0][1]]
+    f = the(cands, "SubRenderer::add_inline_text")
+    total = 0
+    for n_filters in (0, 1):
+        exe = make_exe(loop_bound=6)
+        st = State()
+        at_end = exe.fresh("bool", "at_block_end")
+        pre_depth = exe.fresh("usize", "pre_depth")
+        preserve = exe.fresh("bool", "ws.preserve")
+        all_ws = exe.fresh("bool", "text.all_whitespace")
+        filt_some = exe.fresh("bool", "filter.changes")
+        filters = VVec([VOpaque("fn(&str) -> Option<String>", "const:verif::filter%d" % k) for k in range(n_filters)])
+        sub = _agg(ctx, "SubRenderer", at_block_end=at_end, pre_depth=pre_depth, text_filter_stack=filters,
+                   ann_stack=VVec([VOpaque("Annotation", "outer")]), wrapping=VOpaque("Option<WrappedBlock>", "wrapping"),
+                   width=exe.fresh("usize", "width"), options=VOpaque("RenderOptions", "options"), decorator=VOpaque("D", "decorator"))
+        exe.cell_n += 1
+        cid = "cell%d" % exe.cell_n
+        exe.global_cells[cid] = sub
+        text = VRef("val", VOpaque("str", "text"))
+
+        def nm(exe_, st_, v):
+            while isinstance(v, VRef):
+                v = exe_.deref(st_, v)
+            return v
+
+        def summ(exe_, st_, f_, bb_, callee, args, dest_ty):
+            c = callee.strip()
+            if re.search(r"SubRenderer::<D>::ws_mode$", c):
+                return [(st_, VOpaque("WhiteSpace", "wsmode"))]
+            if re.search(r"WhiteSpace::preserve_whitespace$", c):
+                return [(st_, preserve)]
+            if re.search(r"core::str::<impl str>::chars$", c):
+                return [(st_, VOpaque("Chars", "chars"))]
+            if re.search(r"^<Chars<'_> as Iterator>::all::<", c):
+                return [(st_, all_ws)]
+            if re.search(r"as Renderer>::start_block$", c):
+                # starting the block clears the flag (contract of start_block)
+                blk = exe_.deref(st_, args[0])
+                fields = list(blk.fields)
+                fields[blk.names.index("at_block_end")] = VBool(z3.BoolVal(False))
+                exe_.write_ref(st_, args[0], [], VAgg(blk.path, blk.variant, fields, blk.names), None)
+                return [(st_, VAgg("Result::Ok", "Ok", [VUnit()]))]
+            if re.search(r"Option::<String>::as_deref$", c):
+                v = nm(exe_, st_, args[0])
+                if isinstance(v, VAgg) and v.variant == "Some":
+                    return [(st_, VAgg("Option::Some", "Some", [VRef("val", v.fields[0])]))]
+                if isinstance(v, VAgg) and v.variant == "None":
+                    return [(st_, VAgg("Option::None", "None", []))]
+                return None
+            if re.search(r"verif::filter\d+$", c):
+                some = st_.clone()
+                some.pc.append(filt_some.e)
+                none = st_.clone()
+                none.pc.append(z3.Not(filt_some.e))
+                return [(some, VAgg("Option::Some", "Some", [VOpaque("String", "filtered")])), (none, VAgg("Option::None", "None", []))]
+            if re.search(r"^get_wrapping_or_insert::<D>$", c):
+                return [(st_, VRef("val", VOpaque("WrappedBlock", "block")))]
+            if re.search(r"as Clone>::clone$", c):
+                v = nm(exe_, st_, args[0])
+                return [(st_, VVec(list(v.elems)) if isinstance(v, VVec) else None)] if isinstance(v, VVec) else None
+            if re.search(r"TextDecorator>::decorate_preformat_first$", c):
+                return [(st_, VOpaque("Annotation", "pre_first"))]
+            if re.search(r"TextDecorator>::decorate_preformat_cont$", c):
+                return [(st_, VOpaque("Annotation", "pre_cont"))]
+            if re.search(r"WrappedBlock::<.*>::add_text$", c):
+                if st_.calls:
+                    n_, av, fn_, bb2 = st_.calls[-1]
+                    st_.calls[-1] = (n_, [av[0], nm(exe_, st_, av[1]), av[2], nm(exe_, st_, av[3]), nm(exe_, st_, av[4])], fn_, bb2)
+                return [(st_, VAgg("Result::Ok", "Ok", [VUnit()]))]
+            return orig(exe_, st_, f_, bb_, callee, args, dest_ty)
+        summaries.summarize = summ
+        try:
+            outs = exe.run(f.name, {1: VRef("cell", cid), 2: text}, st)
+        finally:
+            summaries.summarize = orig
+        total += len(outs)
+        if not outs:
+            raise Inconclusive("no path returned")
+        for (s2, ret) in outs:
+            adds = [c for c in s2.calls if re.search(r"WrappedBlock::<.*>::add_text$", c[0]) and c[2] == f.name]
+            ignored = z3.And(z3.Not(preserve.e), at_end.e, all_ws.e)
+            post(exe, s2, z3.BoolVal(len(adds) <= 1), f.name, "text is handed to the wrapping block at most once")
+            post(exe, s2, ignored == z3.BoolVal(len(adds) == 0), f.name,
+                 "text is dropped exactly when it is only whitespace between blocks in a collapsing mode")
+            if len(adds) == 1:
+                _, a, _, _ = adds[0]
+                txt, main, cont = a[1], a[3], a[4]
+                names = lambda v: [getattr(x, "name", "?") for x in v.elems] if isinstance(v, VVec) else None
+                tname = getattr(txt, "name", None)
+                if n_filters == 0:
+                    post(exe, s2, z3.BoolVal(tname == "text"), f.name, "without filters the text itself is added (got %s)" % tname)
+                else:
+                    post(exe, s2, filt_some.e == z3.BoolVal(tname == "filtered"), f.name, "a filter's result replaces the text exactly when it returns one (got %s)" % tname)
+                in_pre = z3.UGT(pre_depth.e, u64(0))
+                post(exe, s2, z3.If(in_pre, z3.BoolVal(names(main) == ["outer", "pre_first"]), z3.BoolVal(names(main) == ["outer"])), f.name,
+                     "text carries the annotations current at that moment (plus the preformatted mark inside <pre>): %s" % names(main))
+                post(exe, s2, z3.If(in_pre, z3.BoolVal(names(cont) == ["outer", "pre_cont"]), z3.BoolVal(names(cont) == ["outer"])), f.name,
+                     "continuation pieces carry the same annotations (plus the continuation mark inside <pre>): %s" % names(cont))
+    return {"function": f.name, "paths": total}
+
 
 ALL = [
     Spec("table_col_width", ["C06", "C02", "C01"], spec_table_col_width,
@@ -3783,6 +3890,11 @@ ALL = [
          assumptions=["str::parse::<usize> returns any value or an error; DOM accessors follow their contracts",
                       "the column arithmetic of RenderTable::new downstream is outside this spec"],
          replay=lambda fd, vals, info: {"harness": "m_colspan_huge", "values": [[0]]}),
+    Spec("inline_text_tags", ["C09", "C13"], spec_inline_text_tags,
+         functions=["SubRenderer::add_inline_text"],
+         bounds="0-1 text filters; block-end flag, <pre> depth, whitespace mode and the text's whitespace-only-ness symbolic",
+         assumptions=["WrappedBlock::add_text is observed (its behaviour is the subject of the wrap_* specs); start_block clears the block-end flag"],
+         replay=lambda fd, vals, info: {"harness": "m_inline_tags", "values": [[0]]}),
     Spec("link_footnotes", ["C08"], spec_link_footnotes,
          functions=["TextRenderer::start_link", "TextRenderer::end_link"],
          bounds="0-2 links already recorded; footnote flag symbolic",
